@@ -62,7 +62,7 @@ func init() {
 		engine.Register(&engine.Check{
 			ID: "C16", Level: "fault_enumeration",
 			Rule:        "fault enumeration: (a) for every event stream of the C01 language (trees, scalars, strings, lengths, extended events) x 3 encoders a dry run counts the W writes, then for EVERY k < W the k-th and all later writes fail; the event sequence must report an error no later than its last event; (b) for every document of the three wire languages x {Parse, ParseReader, Write in single bytes}, for Fold of a set of Go values, and for the extended-event adapters, a dry run counts the E events, then for EVERY k < E the visitor fails at event k; the outermost call must return exactly the injected error and deliver no further event; a case = (producer/consumer, input, k), distinct by that triple; non-trivial = k > 0 (the fault is not at the very first step)",
-			Assumptions: []string{"the failing writer keeps failing (as the property states)", "Fold is exercised on a fixed set of Go values here; the type space is C09/C12's"},
+			Assumptions: []string{"the failing writer keeps failing (as the property states)", "Fold is exercised on a fixed set of Go values and on the one-field, scalar-container, nested-inline and seed families of the Go type space of C11/C12"},
 			Families:    c16Families,
 			Require:     []string{"write_faults", "visitor_faults"},
 		})
@@ -236,6 +236,43 @@ func c16Families(tier string) []engine.Family {
 			return map[string]interface{}{"go_value": fmt.Sprintf("%T %+v", v, v), "failing_event": k, "events": E, "err": errStr(res.Err), "events_after_failure": rec.After}
 		}, model.Event{K: model.KNil})
 	}})
+
+	// (b) Fold over the Go type space of C11/C12 (every per-kind folder has its own error paths)
+	for _, f := range goFamilies(tier, func(x *engine.Exec, c *GoCase) {
+		if !c.V.IsValid() {
+			return
+		}
+		v := c.V.Interface()
+		dry := model.NewRecorder()
+		if r := guard(400000, func() error { return gotype.Fold(v, dry, c.Opts...) }); r.Bad() || r.Err != nil {
+			x.Count("fold_seed_value_rejected", 1) // C12's business
+			return
+		}
+		E := len(dry.Evs)
+		if E == 0 {
+			return
+		}
+		k := x.Choose(E)
+		x.Case(fmt.Sprintf("fg|%s|%d", c.Key(), k), k > 0)
+		x.Sample(func() interface{} {
+			m := c.Sample().(map[string]interface{})
+			m["failing_event"], m["events"] = k, E
+			return m
+		})
+		rec := &model.Recorder{FailAt: k, Err: errInjected}
+		res := guard(200000, func() error { return gotype.Fold(v, rec, c.Opts...) })
+		c16Visitor(x, "gotype.Fold", "fold:"+c.Class, res, rec, k, E, func() interface{} {
+			m := c.Sample().(map[string]interface{})
+			m["failing_event"], m["events"], m["err"], m["events_after_failure"] = k, E, errStr(res.Err), rec.After
+			return m
+		}, model.Event{K: model.KNil})
+	}) {
+		switch f.Name {
+		case "struct1", "scalar-containers", "inline-nest", "seeds", "struct2-seeds":
+			f.Name = "fold-" + f.Name
+			fams = append(fams, f)
+		}
+	}
 
 	// (b) adapters
 	fams = append(fams, engine.Family{Name: "adapters", Body: func(x *engine.Exec) {
